@@ -209,12 +209,20 @@ pub fn diff(exp: &[ANode], act: &[ANode], out: &mut BTreeSet<String>) {
             }
             (ANode::Comment(x), ANode::Comment(y)) => {
                 if x != y {
-                    out.insert("comment-differs".into());
+                    if normalise_line_ends(y) == *x {
+                        out.insert("comment-pi-line-ends-not-normalised".into());
+                    } else {
+                        out.insert("comment-differs".into());
+                    }
                 }
             }
             (ANode::PI(t1, d1), ANode::PI(t2, d2)) => {
                 if t1 != t2 || d1 != d2 {
-                    out.insert("processing-instruction-differs".into());
+                    if t1 == t2 && d1.is_some() && d2.as_deref().map(normalise_line_ends) == *d1 {
+                        out.insert("comment-pi-line-ends-not-normalised".into());
+                    } else {
+                        out.insert("processing-instruction-differs".into());
+                    }
                 }
             }
             (ANode::Elem(x), ANode::Elem(y)) => diff_elem(x, y, out),
@@ -310,20 +318,6 @@ pub fn expected_ids(top: &[ANode]) -> Vec<(String, Vec<usize>)> {
     let mut out = vec![];
     go(top, 0, &mut vec![], &mut out);
     out
-}
-
-/// The xml:id values of an actual forest that are not in normal form, normalised.
-pub fn unnormalised_ids(nodes: &[ANode], out: &mut Vec<String>) {
-    for n in nodes {
-        if let ANode::Elem(e) = n {
-            for a in &e.attrs {
-                if a.0 == XML_NS && a.1 == "id" && trim_collapse(&a.2) != a.2 {
-                    out.push(trim_collapse(&a.2));
-                }
-            }
-            unnormalised_ids(&e.kids, out);
-        }
-    }
 }
 
 pub fn all_values_xml_chars(t: &GTree) -> bool {
@@ -522,8 +516,11 @@ pub fn generic_spans(vocab: &Vocab, seen: &Seen, src: &str, dump: &Dump, out: &m
                 }
                 Some(s) => {
                     if let Some(slice) = check(s, "comment", out) {
-                        if slice != *v {
+                        // the value is the slice with its line ends normalised
+                        if normalise_line_ends(&slice) != normalise_line_ends(v) {
                             out.insert("comment-span-is-not-the-body".into());
+                        } else if normalise_line_ends(&slice) != *v {
+                            out.insert("comment-value-is-not-the-line-end-normalised-slice".into());
                         }
                     }
                 }
@@ -544,8 +541,10 @@ pub fn generic_spans(vocab: &Vocab, seen: &Seen, src: &str, dump: &Dump, out: &m
                 match (d, seen.span_info.get(SpanInfoKey::PiContent(*n))) {
                     (Some(v), Some(s)) => {
                         if let Some(slice) = check(s, "pi-content", out) {
-                            if slice != *v {
+                            if normalise_line_ends(&slice) != normalise_line_ends(v) {
                                 out.insert("pi-content-span-is-not-the-content".into());
+                            } else if normalise_line_ends(&slice) != *v {
+                                out.insert("pi-content-value-is-not-the-line-end-normalised-slice".into());
                             }
                         }
                     }
